@@ -303,7 +303,11 @@ fn dump<E: CodecTrait + std::panic::RefUnwindSafe + 'static>(i: usize) {
     // sequences over the derived codec obey the round-trip law
     let text: String = E::items().chain(E::items()).chain(E::items()).map(|s| s.to_char()).collect();
     let rt = match Seq::<E>::try_from(text.as_str()) {
-        Ok(s) => s.to_string() == text && s.len() == text.chars().count() && E::items().chain(E::items()).chain(E::items()).zip(s.iter()).all(|(a, b)| a == b),
+        Ok(s) => s.to_string() == text && s.len() == text.chars().count() && E::items().chain(E::items()).chain(E::items()).zip(s.iter()).all(|(a, b)| a == b)
+            // positional access written on the owned value and on a slice of it agrees with iteration (symbols of derived
+            // widths 3, 5, 6, 7 straddle storage words)
+            && (0..s.len()).all(|i| s.get(i) == Some(s.nth(i)) && s.iter().nth(i) == Some(s.nth(i)) && s[..].get(i) == s.get(i) && (&s).nth(i) == s[i..].nth(0))
+            && s.get(s.len()).is_none() && s.rev_iter().count() == s.len() && s.clone() == s,
         Err(_) => false,
     };
     println!("{i} w={} items={items} tfb={tfb} tfa={tfa} chars={} |{}|{}|{rt}", E::BITS, chars.join(","), ufb == tfb, ufa == tfa);
